@@ -196,16 +196,31 @@ def run(ck):
     ck.ob('DT-terminal', mod.loc(rmatch), ok, 'the terminal rule applies exactly to residues with a single neighbour when nter/cter is asked for', key='DT-terminal|degree')
     sub = mod.func('_subdict')
     ck.analysed(mod, sub)
-    fr = stmts_with_env(sub, lambda s: isinstance(s, ast.Return) and try_fold(s.value, default=1) is False)
-    ok = len(fr) == 1
-    if ok:
+    def mismatch_formula(f):
         names = {}
-        for k in flow.atoms_of(fr[0][1]):
+        for k in flow.atoms_of(f):
             if k[0] == 'In' and k[1] == 'key' and k[2] == 'dict2':
                 names[k] = 'HAS'
             elif k[0] == 'Eq' and 'dict2[key]' in k[1:] and 'val' in k[1:]:
                 names[k] = 'SAME'
-        ok = flow.equivalent(flow.rename(fr[0][1], names), flow.parse_formula('not HAS or not SAME'))[0] and try_fold(sub.body[-1].value, default=0) is True
+        return len(names) == len(flow.atoms_of(f)) and flow.equivalent(flow.rename(f, names), flow.parse_formula('not HAS or not SAME'))[0]
+    fr = stmts_with_env(sub, lambda s: isinstance(s, ast.Return) and try_fold(s.value, default=1) is False)
+    ok = len(fr) == 1 and mismatch_formula(fr[0][1]) and try_fold(sub.body[-1].value, default=0) is True
+    if not ok:
+        # the same decision as one expression: `not any(<mismatch> for key, val in dict1.items())` / `all(<match> for ...)`
+        rets = [r for r in walk_local(sub) if isinstance(r, ast.Return)]
+        if len(rets) == 1 and rets[0].value is not None:
+            v = rets[0].value
+            neg = isinstance(v, ast.UnaryOp) and isinstance(v.op, ast.Not)
+            callv = v.operand if neg else v
+            if isinstance(callv, ast.Call) and call_name(callv) in ('any', 'all') and callv.args and isinstance(callv.args[0], ast.GeneratorExp):
+                g = callv.args[0]
+                over_items = len(g.generators) == 1 and u(g.generators[0].iter) == 'dict1.items()' and not g.generators[0].ifs and u(g.generators[0].target) == '(key, val)'
+                f = flow.to_formula(g.elt)
+                if call_name(callv) == 'any' and neg:
+                    ok = over_items and mismatch_formula(f)
+                elif call_name(callv) == 'all' and not neg:
+                    ok = over_items and mismatch_formula(flow.NOT(f))
     ck.ob('DT-terminal', mod.loc(sub), ok, 'a residue matches when every given part (chain, resname, resid) is present and equal; parts not given do not restrict',
           key='DT-terminal|all-parts')
     ret = [s for s in rmatch.body if isinstance(s, ast.Return) and isinstance(s.value, ast.Call)]
